@@ -10,6 +10,8 @@ pub fn guarded<R>(f: impl FnOnce() -> R) -> Option<R> {
 }
 
 pub fn silence_panics() {
+    // VH_PANIC=1 keeps the default hook (debugging a driver that dies outside a guarded call)
+    if std::env::var("VH_PANIC").is_ok() { return; }
     std::panic::set_hook(Box::new(|_| {}));
 }
 
